@@ -867,7 +867,7 @@ protocols_sign(signature_t *sig,
     quat_left_ideal_finalize(&lideal_resp_two);
     quat_left_ideal_finalize(&lideal_tmp);
     quat_left_ideal_finalize(&lideal_com_resp);
-    quat_left_ideal_init(&lideal_aux_resp_com);
+    quat_left_ideal_finalize(&lideal_aux_resp_com);
     quat_left_ideal_finalize(&lideal_aux);
 
     ibz_vec_4_finalize(&dummy_coord);
